@@ -118,6 +118,9 @@ class Scheduler:
         self.wall_limit = wall_limit
         self.main_done = False
         self.error = None
+        self.main_gated = False     # the tool collects its results through as_completed(): each collection is a scheduled event
+        self.main_taken = 0         # futures the main thread has taken out of as_completed() so far
+        self.main_busy = False      # released from its gate and not yet back asking for the next result
         self.blocked = {}           # label -> SchedLock waited for
         self.deadlock = []          # labels ended because nobody could release the lock they waited for
 
@@ -174,6 +177,26 @@ class Scheduler:
         self._park(label, kind)
 
     # ---- called from the tool's main thread
+    MAIN = (-1, 'main-thread-collects-a-result', 0)
+
+    def main_collect(self):
+        """the main thread has a finished work item in hand and is about to process (print) it: a scheduled event like any other"""
+        with self.cv:
+            self.main_gated = True
+            self.main_taken += 1
+            self.main_busy = False
+        self._park(self.MAIN, 'collect')
+
+    def main_back(self):
+        with self.cv:
+            self.main_busy = False
+            self.cv.notify_all()
+
+    def _main_quiet(self):
+        if not self.main_gated or self.main_done:
+            return True
+        return self.MAIN in self.parked or (self.main_taken >= self.finished and not self.main_busy)
+
     def signal_all_submitted(self):
         with self.cv:
             self.all_submitted = True
@@ -198,14 +221,15 @@ class Scheduler:
                 while True:
                     if self.main_done and not self.all_submitted:
                         return          # the tool ended before handing work to the pool
-                    if self.all_submitted and len(self.parked) + len(self.blocked) == self._expected_parked():
+                    nworkers = len([l for l in self.parked if l != self.MAIN])
+                    if self.all_submitted and nworkers + len(self.blocked) == self._expected_parked() and self._main_quiet():
                         break
-                    if self.all_submitted and self.finished >= self.submitted:
+                    if self.all_submitted and self.finished >= self.submitted and self._main_quiet():
                         break
                     if not self.cv.wait(0.5) and _time.time() > deadline:
                         raise HarnessError('scheduler: no quiescence (parked=%r submitted=%d finished=%d k=%r)' % (
                             self.parked, self.submitted, self.finished, self.k_max))
-                if self.finished >= self.submitted:
+                if self.finished >= self.submitted and self.MAIN not in self.parked:
                     return
                 if not self.parked and self.blocked:
                     # every unfinished worker waits for a lock: deadlock.  End the waiters so that the execution terminates.
@@ -232,6 +256,8 @@ class Scheduler:
                 label = enabled[c]
                 self.running = label
                 del self.parked[label]
+                if label == self.MAIN:
+                    self.main_busy = True
                 self.go.pop(label).set()
                 deadline = _time.time() + self.wall_limit
 
@@ -282,8 +308,10 @@ class _Exec(_cf.ThreadPoolExecutor):
 def _as_completed(fs, timeout=None):
     w = vnet.current()
     if w is not None and w.sched is not None:
+        with w.sched.cv:
+            w.sched.main_gated = True
         w.sched.signal_all_submitted()
-    if timeout is None or w is None:
+    if w is None:
         return _cf.as_completed(fs, timeout)
     # a deadline for the whole iteration, as in the standard library - measured on the virtual clock (the busiest worker's), since the
     # peers' delays are virtual: when a result arrives later than `timeout` after the call, the caller gets TimeoutError instead
@@ -291,11 +319,19 @@ def _as_completed(fs, timeout=None):
 
     def gen():
         start, done = w.max_clock(), 0
-        for f in _cf.as_completed(fs):
-            if w.max_clock() - start > timeout:
-                raise _cf.TimeoutError('%d (of %d) futures unfinished' % (len(fs) - done, len(fs)))
-            done += 1
-            yield f
+        try:
+            for f in _cf.as_completed(fs):
+                if timeout is not None and w.max_clock() - start > timeout:
+                    raise _cf.TimeoutError('%d (of %d) futures unfinished' % (len(fs) - done, len(fs)))
+                done += 1
+                if w.sched is not None:
+                    w.sched.main_collect()
+                yield f
+                if w.sched is not None:
+                    w.sched.main_back()
+        finally:
+            if w.sched is not None:
+                w.sched.main_back()
     return gen()
 
 
